@@ -3,10 +3,11 @@ import json
 import random
 import warnings
 import numpy as np
-from . import core
+from . import core, pylite_tie
 from .core import Case, cD, cN, clist
-from .c02 import dl, dmat, tolist, shape2d
+from .c02 import dl, dmat, tolist
 
+obligations = pylite_tie.c03_obligations   # source-regenerated theorems about Trend.predict / Trend.jacobian / Trend.fit
 ID = "C01"
 PROPS_FILE = "Props/C01.v"
 IMPORTS = "From Verde Require Import Lib.LinAlgD Model.LeastSquares Model.Interpolators Model.LSCases."
@@ -18,12 +19,15 @@ RULE = ("pairwise-distinct point clouds (3..30 points; scatter / jittered grid /
         "None/0/small), undamped VectorSpline2D (Poisson ratio in [-1,1] incl. end points), KNeighbors(k=1), Linear and Cubic "
         "(rescale on/off; non-collinear clouds only), Chain(Trend, Spline), Chain(Trend, KNeighbors), Chain(Trend, Linear), "
         "Vector(Spline, Spline), Vector(KNeighbors, Cubic), Chain(Vector(Trend, Trend), VectorSpline2D), all fitted and predicted "
-        "at the same points; every stream has a 'prefit' variant in which the SAME estimator instance (or composite) is first fitted "
+        "at the same points; coordinates and data are handed over 1-D or as 2-D arrays that are NOT xy-meshgrids (scattered points "
+        "reshaped to (r, c), a column (n, 1), a row (1, n), meshgrid(indexing='ij'), a rotated grid) and every 2-D case is also "
+        "compared with the same points passed 1-D (stream shape-2d-vs-1d/*: equal values, output in the shape of the input); "
+        "every stream has a 'prefit' variant in which the SAME estimator instance (or composite) is first fitted "
         "to a different cloud with fewer or more points (VectorSpline2D, which documents that it keeps its first force locations, "
         "gets them explicitly there); Spline / VectorSpline2D forces are the copied data points (force_coords=None), the SAME points "
         "passed through force_coords shuffled or sorted, or a separate set of the same size (square system); documented special "
         "values are hit exactly in a fixed share of cases (poisson -1, 0, 1, 0.5; mindist None, 0, the default 10e3); a fixed stream of 4 thin two-cluster layouts x {Linear, Cubic}(rescale=False) (known finding F17: NaN at "
-        "a data point); Trend of degree 0..4 fitted to a random polynomial of total degree <= N and evaluated at OTHER points. "
+        "a data point); Trend of degree 0..4 fitted to a random polynomial of total degree <= N and evaluated at OTHER points given in each of those array layouts. "
         "Coq evaluates on exact dyadics |predict - truth| <= 1e3 * 2^-52 * kappa * max|truth| (kappa = condition number of the "
         "column-scaled system from numpy SVD, passed exactly; kappa > 1e12 -> counted skip); for the least-squares interpolators "
         "also the C02 certificate of the fitted parameters (agree); for KNeighbors bit-exact equality with the data and with the "
@@ -37,15 +41,69 @@ ASSUMPTIONS = [
 TRUSTED = ["harness/c01.py (generators, numpy SVD for kappa, floating-point polynomial evaluation)"]
 
 
+class Layout(str):
+    """layout name; .shape is the natural 2-D shape of a gridded cloud (None for scattered ones)"""
+    shape = None
+
+
+def grid_axes(rnd, k):
+    t = np.cumsum([rnd.uniform(0.5, 1.5) for _ in range(k)])
+    return (t - t[0]) / (t[-1] - t[0]) if k > 1 else np.array([0.5])
+
+
+def grid_cloud(rnd, r, c, kind):
+    """(r, c) arrays that are NOT an xy-meshgrid: meshgrid(indexing='ij') (easting varies along the FIRST axis) or an
+    xy-grid rotated by 10..80 degrees; unit square, C-order"""
+    if kind == "ijgrid":
+        x, y = grid_axes(rnd, r), grid_axes(rnd, c)
+        E, N = np.meshgrid(x, y, indexing="ij")
+    else:
+        x, y = grid_axes(rnd, c), grid_axes(rnd, r)
+        X, Y = np.meshgrid(x, y)
+        th = np.radians(rnd.uniform(10, 80))
+        E = 0.5 + 0.6 * (np.cos(th) * (X - 0.5) - np.sin(th) * (Y - 0.5))
+        N = 0.5 + 0.6 * (np.sin(th) * (X - 0.5) + np.cos(th) * (Y - 0.5))
+    return E, N
+
+
+def layout2d(rnd, arrs, layout=None):
+    """how the SAME points are handed over: 1-D, or 2-D arrays that are not xy-meshgrids: the natural (r, c) shape of an
+    ij-/rotated grid, scattered points reshaped to (r, c), a column (n, 1), a row (1, n)"""
+    n = arrs[0].size
+    shp = getattr(layout, "shape", None)
+    if shp:
+        return [a.reshape(shp) for a in arrs]
+    u = rnd.random()
+    if u < 0.3:
+        return list(arrs)
+    if u < 0.42:
+        return [a.reshape(n, 1) for a in arrs]
+    if u < 0.54:
+        return [a.reshape(1, n) for a in arrs]
+    fac = [(r, n // r) for r in range(2, n) if n % r == 0]
+    if fac:
+        shp = rnd.choice(fac)
+        return [a.reshape(shp) for a in arrs]
+    return list(arrs)
+
+
 def cloud(rnd, n, collinear_ok=True):
     """pairwise distinct points"""
     scale = 10.0 ** rnd.uniform(-2, 6)
     offset = rnd.choice([0.0, 0.0, 1.0, 30.0, 1e3]) * rnd.uniform(-1, 1)
     # collinear_ok=False is the Linear/Cubic (Delaunay) setting: no collinear clouds (QhullError) and no tight
     # clusters (thin triangles: scipy's find_simplex misses a hull vertex -> NaN at a data point; reported finding)
-    layouts = ["scatter", "scatter", "grid"] + (["clusters", "line"] if collinear_ok else [])
-    layout = rnd.choice(layouts)
-    if layout == "grid":
+    layouts = ["scatter", "scatter", "grid", "ijgrid", "rotgrid"] + (["clusters", "line"] if collinear_ok else [])
+    layout = Layout(rnd.choice(layouts))
+    fac = [(r, n // r) for r in range(2, n) if n % r == 0]
+    if layout in ("ijgrid", "rotgrid") and not fac:
+        layout = Layout("scatter")
+    if layout in ("ijgrid", "rotgrid"):
+        shp = rnd.choice(fac)
+        E, N = grid_cloud(rnd, shp[0], shp[1], str(layout))
+        e, nn = E.ravel(), N.ravel()
+        layout.shape = shp
+    elif layout == "grid":
         k = int(np.ceil(n ** 0.5))
         pts = [(i + 0.2 * rnd.random(), j + 0.2 * rnd.random()) for i in range(k) for j in range(k)]
         rnd.shuffle(pts)
@@ -115,6 +173,30 @@ def flat(x):
     return np.ravel(x)
 
 
+_EXTRA = []
+
+
+def drain():
+    out = list(_EXTRA)
+    del _EXTRA[:]
+    return out
+
+
+def shape_case(expr, coords, pred, pred1d, what, repro):
+    """the same points handed over as 2-D arrays and as 1-D arrays: same values (2^-40 of the largest), output in the
+    shape of the input coordinates"""
+    comps = pred if isinstance(pred, tuple) else (pred,)
+    inp = {"estimator": expr, "coordinates": tolist(coords), "compared": what}
+    kind = "shape-2d-vs-1d/" + expr.split("(")[0].replace("vd.", "")
+    if any(np.shape(c) != np.shape(coords[0]) for c in comps):
+        return Case(inp, {"output_shapes": [list(np.shape(c)) for c in comps], "coordinate_shape": list(np.shape(coords[0]))},
+                    "Vviol", repro, kind + "/wrong-output-shape")
+    a, b = flat(pred1d), flat(pred)
+    if not (np.all(np.isfinite(a)) and np.all(np.isfinite(b))):
+        return None
+    return Case(inp, {"max_abs_difference": float(np.max(np.abs(a - b)))}, "c01_passthrough %s %s" % (dl(a), dl(b)), repro, kind)
+
+
 def run(expr, coords, data, prefit=None):
     import verde as vd
     est = eval(expr, {"vd": vd, "np": np})
@@ -124,6 +206,16 @@ def run(expr, coords, data, prefit=None):
             est.fit(prefit[0], prefit[1])
         est.fit(coords, data)
         pred = est.predict(coords)
+        if np.ndim(coords[0]) == 2:
+            # the same points and data as 1-D arrays, fresh instance: fit/predict must not depend on the array shape
+            c1 = tuple(np.ravel(c) for c in coords)
+            d1 = tuple(np.ravel(c) for c in data) if isinstance(data, tuple) else np.ravel(data)
+            est1 = eval(expr, {"vd": vd, "np": np})
+            est1.fit(c1, d1)
+            extra = shape_case(expr, coords, pred, est1.predict(c1), "fit+predict at the data points, %s arrays vs 1-D" % (np.shape(coords[0]),),
+                               mk_repro(expr, coords, data, prefit))
+            if extra is not None:
+                _EXTRA.append(extra)
     return est, pred
 
 
@@ -173,7 +265,7 @@ def spline_case(rnd, i, vector):
         # documented special Poisson ratios (exactly -1: uncoupled, 0, 1, the default 0.5) in every third case
         poisson = POISSON_SPECIAL[(i // 3) % 4] if i % 3 == 0 else rnd.uniform(-1, 1)
         mind = 10e3 if i % 5 == 4 else scale * 10.0 ** rnd.uniform(-3, -0.5)      # 10e3 is the documented default
-        arrs = shape2d(rnd, [e, nn, rdata(rnd, n), rdata(rnd, n)])
+        arrs = layout2d(rnd, [e, nn, rdata(rnd, n), rdata(rnd, n)], layout)
         coords, data = (arrs[0], arrs[1]), (arrs[2], arrs[3])
         fcs = forces_for(rnd, mode, coords)
         # VectorSpline2D documents that it keeps the force locations of its FIRST fit: in the prefit variant the
@@ -183,7 +275,7 @@ def spline_case(rnd, i, vector):
         expr = "vd.VectorSpline2D(poisson=%r, mindist=%r%s)" % (poisson, mind, "" if fcs is None else ", force_coords=" + fc_literal(fcs))
     else:
         mind = [None, 0.0, None, 1e-6 * scale, None, 1e-2 * scale][i % 6]
-        arrs = shape2d(rnd, [e, nn, rdata(rnd, n)])
+        arrs = layout2d(rnd, [e, nn, rdata(rnd, n)], layout)
         coords, data = (arrs[0], arrs[1]), arrs[2]
         fcs = forces_for(rnd, mode, coords)
         expr = "vd.Spline(mindist=%r%s)" % (mind, "" if fcs is None else ", force_coords=" + fc_literal(fcs))
@@ -216,7 +308,7 @@ def spline_case(rnd, i, vector):
 def knn_case(rnd, i):
     n = rnd.randint(1, 30)
     e, nn, scale, layout = cloud(rnd, n)
-    arrs = shape2d(rnd, [e, nn, rdata(rnd, n)])
+    arrs = layout2d(rnd, [e, nn, rdata(rnd, n)], layout)
     coords, data = (arrs[0], arrs[1]), arrs[2]
     expr = "vd.KNeighbors(k=1)" if i % 2 else "vd.KNeighbors()"
     prefit = other_set(rnd, n, False) if i % 4 >= 2 else None
@@ -244,7 +336,7 @@ def nan_report(coords, pf):
 def scipy_case(rnd, i):
     n = rnd.randint(4, 30)
     e, nn, scale, layout = cloud(rnd, n, collinear_ok=False)
-    arrs = shape2d(rnd, [e, nn, rdata(rnd, n)])
+    arrs = layout2d(rnd, [e, nn, rdata(rnd, n)], layout)
     coords, data = (arrs[0], arrs[1]), arrs[2]
     kind = ["Linear", "Cubic"][i % 2]
     expr = "vd.%s(rescale=%r)" % (kind, bool((i // 2) % 2))
@@ -283,10 +375,10 @@ def composite_case(rnd, i):
     e, nn, scale, layout = cloud(rnd, n, collinear_ok=(last != "scipy"))
     expr = expr.replace("MIND", repr(scale * 0.05))
     if vec:
-        arrs = shape2d(rnd, [e, nn, rdata(rnd, n), rdata(rnd, n)])
+        arrs = layout2d(rnd, [e, nn, rdata(rnd, n), rdata(rnd, n)], layout)
         coords, data = (arrs[0], arrs[1]), (arrs[2], arrs[3])
     else:
-        arrs = shape2d(rnd, [e, nn, rdata(rnd, n)])
+        arrs = layout2d(rnd, [e, nn, rdata(rnd, n)], layout)
         coords, data = (arrs[0], arrs[1]), arrs[2]
     # every second round of the composite list: the same composite instance is first fitted to another data set
     prefit = other_set(rnd, n, vec, collinear_ok=(last != "scipy")) if (i // len(COMPOSITES)) % 2 else None
@@ -349,11 +441,26 @@ def trend_poly_case(rnd, i):
         return val, mag
 
     data, mag_fit = poly(e, nn)
-    m = rnd.randint(3, 12)
-    qe = e.min() + (e.max() - e.min()) * np.array([rnd.random() for _ in range(m)])
-    qn = nn.min() + (nn.max() - nn.min()) * np.array([rnd.random() for _ in range(m)])
+    # query points OFF the data, handed over in every array layout: 1-D, scattered points in (r, c) / (m, 1) / (1, m)
+    # arrays, an ij-meshgrid, a rotated grid (none of the 2-D ones is an xy-meshgrid)
+    qmode = ["flat", "reshaped", "column", "row", "ijgrid", "rotgrid"][(i // 5) % 6]
+    if qmode in ("ijgrid", "rotgrid"):
+        QE, QN = grid_cloud(rnd, rnd.randint(2, 4), rnd.randint(2, 4), qmode)
+    else:
+        m = rnd.choice([4, 6, 8, 9, 12]) if qmode == "reshaped" else rnd.randint(3, 12)
+        QE = np.array([rnd.random() for _ in range(m)])
+        QN = np.array([rnd.random() for _ in range(m)])
+        if qmode == "reshaped":
+            r = rnd.choice([r for r in range(2, m) if m % r == 0])
+            QE, QN = QE.reshape(r, m // r), QN.reshape(r, m // r)
+        elif qmode == "column":
+            QE, QN = QE.reshape(m, 1), QN.reshape(m, 1)
+        elif qmode == "row":
+            QE, QN = QE.reshape(1, m), QN.reshape(1, m)
+    qe = e.min() + (e.max() - e.min()) * QE
+    qn = nn.min() + (nn.max() - nn.min()) * QN
     truth, mag_q = poly(qe, qn)
-    arrs = shape2d(rnd, [e, nn, data])
+    arrs = layout2d(rnd, [e, nn, data], layout)
     coords = (arrs[0], arrs[1])
     est = vd.Trend(degree)
     prefit = other_set(rnd, n, False) if i % 10 >= 5 else None
@@ -364,9 +471,22 @@ def trend_poly_case(rnd, i):
     est.fit(coords, arrs[2])
     pred = est.predict((qe, qn))
     A = np.array(est.jacobian(coords), dtype=float)
+    qrepro = ("import numpy as np, verde as vd; c = tuple(np.array(x) for x in %r); d = np.array(%r); q = tuple(np.array(x) for x in %r); "
+              "t = vd.Trend(%d).fit(c, d); print(t.predict(q) - t.predict(tuple(np.ravel(x) for x in q)).reshape(q[0].shape))"
+              % (tolist(coords), tolist(arrs[2]), [qe.tolist(), qn.tolist()], degree))
+    if np.ndim(qe) == 2:
+        extra = shape_case("vd.Trend(%d)" % degree, (qe, qn), pred, est.predict((qe.ravel(), qn.ravel())),
+                           "predict off the data, %s arrays (%s) vs 1-D" % (np.shape(qe), qmode), qrepro)
+        if extra is not None:
+            _EXTRA.append(extra)
+    if np.shape(pred) != np.shape(qe):
+        pred = np.full(np.shape(qe), np.nan)     # reported by the shape case; keep the term well formed
+    if not np.all(np.isfinite(pred)):
+        return Case({"estimator": "vd.Trend(%d)" % degree, "query": [qe.tolist(), qn.tolist()], "query_layout": qmode},
+                    {"non_finite_or_misshaped_prediction": True}, "Vviol", qrepro, "trend-polynomial/bad-prediction")
     kap = kappa_scaled(A)
     inp = {"estimator": "vd.Trend(%d)" % degree, "polynomial_degree": pdeg, "polynomial_coefficients": coefs,
-           "coordinates": tolist(coords), "query": [qe.tolist(), qn.tolist()], "layout": layout}
+           "coordinates": tolist(coords), "query": [qe.tolist(), qn.tolist()], "layout": layout, "query_layout": qmode}
     out = {"max_abs_error_off_data": float(np.max(np.abs(pred - truth))), "kappa": kap}
     repro = ("import numpy as np, verde as vd; c = tuple(np.array(x) for x in %r); d = np.array(%r); q = tuple(np.array(x) for x in %r); "
              "print(vd.Trend(%d).fit(c, d).predict(q) - np.array(%r))" % (tolist(coords), tolist(arrs[2]), [qe.tolist(), qn.tolist()], degree, truth.tolist()))
@@ -384,19 +504,26 @@ def generate(tier, seed):
     rnd = random.Random(seed)
     q = tier == "quick"
     cases = []
+
+    def add(case):
+        cases.append(case)
+        cases.extend(drain())     # the 2-D versus 1-D comparisons queued while the case was built
+
+    del _EXTRA[:]
     for i in range(24 if q else 192):
-        cases.append(spline_case(rnd, i, vector=False))
+        add(spline_case(rnd, i, vector=False))
     for i in range(24 if q else 144):
-        cases.append(spline_case(rnd, i, vector=True))
+        add(spline_case(rnd, i, vector=True))
     for i in range(12 if q else 120):
-        cases.append(knn_case(rnd, i))
+        add(knn_case(rnd, i))
     for i in range(16 if q else 160):
-        cases.append(scipy_case(rnd, i))
+        add(scipy_case(rnd, i))
     for i in range(16 if q else 160):
-        cases.append(composite_case(rnd, i))
-    for i in range(20 if q else 200):
-        cases.append(trend_poly_case(rnd, i))
+        add(composite_case(rnd, i))
+    for i in range(30 if q else 210):
+        add(trend_poly_case(rnd, i))
     cases.extend(thin_cases())
+    del _EXTRA[:]
     return cases
 
 
